@@ -267,6 +267,7 @@ def doOp (m : Sim) (tok : String) : Sim × String :=
       | some a => if a.s.workers.length > acc.s.workers.length then { a with jam := false } else a
       | none => acc) m
     (quiesce fuel0 m1, "pre")
+  | ["sy"] => (quiesce fuel0 m, "sy")
   | ["jam", ms] => ({ m with jamMs := ms.toNat!, jam := if ms.toNat! == 0 then false else m.jam }, "jam")
   | ["nh"] => ((app m (.setHandler false)).getD m, "nh")
   | ["sh"] => ((app m (.setHandler true)).getD m, "sh")
